@@ -102,7 +102,7 @@ def mon_c04(f):
                 continue
             rk, v, e = f.ret[i]
             delivered = bool(f.deliveries.get(i))
-            if e == "context canceled":
+            if e in ("context canceled", "context deadline exceeded"):
                 if v != 0:
                     out.append("cancelled call %d returned a non-zero value %d" % (i, v))
             elif not delivered and not f.ended:
@@ -210,6 +210,17 @@ def mon_c15(f):
 
 def mon_c16(f):
     out = []
+    # a reader whose read / decode failed reports at once: it does not wait for handlers or anything else
+    for k, st in enumerate(f.trace):
+        env = st["c"].get("env")
+        loop = {"fail-res": "resloop", "bad-res": "resloop", "fail-req": "reqloop", "bad-req": "reqloop"}.get(env)
+        if loop and st["obs"]["threads"].get(loop) != "@rpc.seterr.closed":
+            out.append("step %d: the %s got a failing read but did not report it at once (it is %r): Link cannot return promptly" % (k, loop, st["obs"]["threads"].get(loop)))
+            break
+    if not f.ending_actions and f.linkret is not None:
+        out.append("Link returned (%r) although the link is healthy: only per-call contexts were cancelled and no fault was injected" % (f.linkret[1],))
+    if not f.ending_actions and f.first_report is not None:
+        out.append("a fatal error was reported (%r) on a healthy link: only per-call contexts were cancelled and no fault was injected" % (f.first_report[1],))
     if f.linkret is not None:
         if f.first_report is None or f.first_report[0] > f.linkret[0]:
             out.append("Link returned %r while the link was healthy (no fatal error had been reported)" % (f.linkret[1],))
@@ -357,6 +368,26 @@ def check(res, tier, seed):
                 monitor_hits += 1
                 res.violation("streamtear:" + re.sub(r"\d+", "N", vs[0])[:50], "implementation violates %s when a stream link is torn down: %s" % (pid, vs[0]),
                               dict(kind="streamtear", config=r["config"], seed=r["seed"], all=vs, link_error=r.get("linkA")))
+    if pid == "C03":
+        # a call in flight inside the enumeration callback when the transport fails (real scheduler)
+        irecs, irc, iout = C.run_job(binary, wd, "inforremotes", dict(family="sys", seed=seed, n=(12 if tier == "quick" else 200), cases=["inforremotes"]), timeout=400)
+        fam["inforremotes"] = len(irecs)
+        for r in irecs:
+            for c in r.get("calls") or []:
+                if c["m"] == "GateInForRemotes" and (not c.get("done") or c["err"] == ""):
+                    monitor_hits += 1
+                    res.violation("inforremotes", "a call in flight inside the ForRemotes callback when the transport failed (%s): %s" % (r["config"], c["err"] or "returned a nil error without a response"),
+                                  dict(kind="sys", family="inforremotes", config=r["config"], seed=r["seed"], call=c, notes=r.get("notes")))
+    if pid == "C12":
+        from . import sys_props
+        hrecs2, hrc2, hout2 = C.run_job(binary, wd, "hubclosures", dict(family="sys", seed=seed, n=(12 if tier == "quick" else 200), cases=["hub"]), timeout=400)
+        fam["hub(closures across links)"] = len(hrecs2)
+        for r in hrecs2:
+            vs = [v for v in sys_props.mon_c13(r) if "closure" in v]
+            if vs:
+                monitor_hits += 1
+                res.violation("hub-closures", "implementation violates C12: %s (the closure's own call is still in flight)" % vs[0],
+                              dict(kind="sys", family="hub", config=r["config"], seed=r["seed"], all=vs[:6]))
     if pid in ("C12", "C05"):
         # black-box closure workloads: registrations after failed / cancelled / late calls, closures that stall
         from . import sys_props
